@@ -324,8 +324,15 @@ func (g *GoTree) node(n *syntax.RegexNode, rtl bool) (string, bool) {
 }
 
 // FromGoTree converts the tree below the implicit root capture (group 0).
-func FromGoTree(t *syntax.RegexTree) *GoTree {
+func FromGoTree(t *syntax.RegexTree) *GoTree { return FromGoTreeShared(t, nil) }
+
+// FromGoTreeShared converts a second tree with the named-class numbering of a first conversion (so that
+// the S-expressions of two trees of the same pattern use the same class ids); base == nil starts afresh.
+func FromGoTreeShared(t *syntax.RegexTree, base *GoTree) *GoTree {
 	g := &GoTree{Named: map[int]func(rune) bool{}, names: map[string]int{}, CatNames: map[int]string{}, RTL: t.Options&syntax.RightToLeft != 0}
+	if base != nil {
+		g.Named, g.names, g.CatNames = base.Named, base.names, base.CatNames
+	}
 	root := t.Root
 	if root.T != syntax.NtCapture || root.M != 0 || len(root.Children) != 1 {
 		g.Unsupported = "root is not the implicit capture"
